@@ -12,6 +12,8 @@ import (
 	"google.golang.org/protobuf/reflect/protoreflect"
 
 	"github.com/bnb-chain/tss-lib/v2/common"
+	eckg "github.com/bnb-chain/tss-lib/v2/ecdsa/keygen"
+	"github.com/bnb-chain/tss-lib/v2/tss"
 )
 
 // Byzantine-node fault injection: one designated node B per run alters one field of one of its
@@ -211,6 +213,12 @@ func EnumCells(check, tier string) ([]Cell, []byzConfig) {
 					continue
 				}
 				bi++ // bi counts the positions that can send this row
+				if check == "C12" && bi == 0 {
+					// commitment/response shift attacks on the proofs this message carries
+					for _, k := range shiftKinds[row.Type] {
+						cells = append(cells, Cell{Cfg: ci, Spec: TamperSpec{B: b, Type: row.Type, Field: "*", Index: -1, Kind: k, Rcpt: -1}})
+					}
+				}
 				for _, f := range FieldsOf(row.Type) {
 					isProof := proofFields[f.Name]
 					add := func(idx int, kind string) {
@@ -347,13 +355,18 @@ func cellScenario(check, tier string, seed uint64, run int) *Scenario {
 		cellCache[key], cfgCache[key] = EnumCells(check, tier)
 	}
 	cells, cfgs := cellCache[key], cfgCache[key]
+	origRun := run
 	var c Cell
 	if tier == "thorough" {
 		if run >= len(cells) {
 			return nil
 		}
 		c = cells[run]
+	} else if prio := shiftCells(cells); run < len(prio) {
+		// the (few) commitment/response shift attacks are part of every quick run
+		c = prio[run]
 	} else {
+		run -= len(shiftCells(cells))
 		groups := map[string][]int{}
 		var order []string
 		for i, x := range cells {
@@ -373,7 +386,17 @@ func cellScenario(check, tier string, seed uint64, run int) *Scenario {
 	p["b"], p["ttype"], p["tfield"], p["tidx"], p["tkind"], p["trcpt"] = c.Spec.B, c.Spec.Type, c.Spec.Field, c.Spec.Index, c.Spec.Kind, c.Spec.Rcpt
 	p["oracle"] = check
 	p["cells_total"] = len(cells)
-	return &Scenario{Check: check, Kind: "byz", Seed: seed, Run: run, P: p, Sched: SchedConfig{Strategy: "fifo"}}
+	return &Scenario{Check: check, Kind: "byz", Seed: seed, Run: origRun, P: p, Sched: SchedConfig{Strategy: "fifo"}}
+}
+
+func shiftCells(cells []Cell) []Cell {
+	var out []Cell
+	for _, c := range cells {
+		if strings.HasPrefix(c.Spec.Kind, "shift:") {
+			out = append(out, c)
+		}
+	}
+	return out
 }
 
 // culpritNodes resolves an error's culprits to node names.
@@ -435,6 +458,7 @@ func driveByz(rc *RunCtx) {
 		}
 	}
 	fired := 0
+	shiftNote := ""
 	lenMismatch := ""
 	var others = map[string]proto.Message{} // latest message of each type from a non-B node
 	var othersAll = map[string][]proto.Message{}
@@ -514,6 +538,56 @@ func driveByz(rc *RunCtx) {
 			fired++
 			w.Faults["tamper:neg-sum-others"]++
 			w.Logf("FAULT %s sends %s = -(sum of the others') after seeing theirs", B.Name, spec.Field)
+			return nw
+		}
+		if strings.HasPrefix(spec.Kind, "shift:") {
+			sc2 := &ShiftCtx{Curve: pr.Curve, Q: ctx.Q, D: new(big.Int).SetUint64(uint64(7 + trng.IntN(1<<20)))}
+			// the verifier's ring-Pedersen parameters
+			switch {
+			case strings.Contains(em.Type, "signing") && pr.Curve == "ec" && len(em.To) == 1:
+				ids := make(tss.SortedPartyIDs, len(w.Nodes))
+				for i, n := range w.Nodes {
+					ids[i] = n.PID
+				}
+				sub := eckg.BuildLocalSaveDataSubset(pr.signKeys[spec.B], ids)
+				j := w.Nodes[em.To[0]].PID.Index
+				sc2.NT, sc2.H1, sc2.H2 = sub.NTildej[j], sub.H1j[j], sub.H2j[j]
+			case em.Type == "ecdsa.keygen.KGRound2Message1" || em.Type == "ecdsa.resharing.DGRound4Message1":
+				src := "ecdsa.keygen.KGRound1Message"
+				if strings.Contains(em.Type, "resharing") {
+					src = "ecdsa.resharing.DGRound2Message1"
+				}
+				// the recipient's announcement (with two parties / two new members: the only other one)
+				rcpt := w.Nodes[em.To[0]]
+				for _, e2 := range rcpt.Emitted {
+					if e2.Type == src {
+						sc2.NT, sc2.H1, sc2.H2 = bi(bytesField(e2.Wire, "n_tilde")), bi(bytesField(e2.Wire, "h1")), bi(bytesField(e2.Wire, "h2"))
+					}
+				}
+				for _, e2 := range B.Emitted {
+					if e2.Type == src {
+						sc2.N0 = bi(bytesField(e2.Wire, "paillier_n"))
+					}
+				}
+				if em.Type == "ecdsa.keygen.KGRound2Message1" {
+					var pkeys []*big.Int
+					for _, n := range w.Nodes {
+						pkeys = append(pkeys, n.PID.KeyInt())
+					}
+					ecp := tss.S256().Params()
+					l := append([]*big.Int{ecp.P, ecp.N, ecp.Gx, ecp.Gy}, pkeys...)
+					l = append(l, big.NewInt(1), big.NewInt(0))
+					sc2.Session = ctxBytes(common.SHA512_256i(l...).Bytes(), B.PID.Index)
+				}
+			}
+			nw, ok, why := applyShift(em.Wire, spec.Kind, sc2)
+			if !ok {
+				shiftNote = why
+				return em.Wire
+			}
+			fired++
+			w.Faults["tamper:shift"]++
+			w.Logf("FAULT %s shifts a commitment and its response together (%s) in %s to %v", B.Name, spec.Kind, em.Type, em.To)
 			return nw
 		}
 		// layout assertion for the static list-length table
@@ -647,6 +721,10 @@ func driveByz(rc *RunCtx) {
 		rc.Res.Probes["crash_seen_(C06_scope)"]++
 	}
 	if fired == 0 {
+		if shiftNote != "" {
+			outcome = "not_constructible"
+			rc.Note("shift not built: %s", shiftNote)
+		}
 		return
 	}
 	if oracle == "C06" {
@@ -874,6 +952,12 @@ func cmKinds(ed bool, n int) []TamperSpec {
 	add(-1, "clear")
 	add(-1, "truncate1")
 	add(0, "+1")
+	// whole points fewer / more: an opening of the wrong length whose elements are all valid points
+	if n >= 3 {
+		add(n-2, "pt-remove")
+		add(1, "pt-remove")
+	}
+	add(-1, "pt-dup")
 	return out
 }
 
